@@ -8,6 +8,8 @@ def replay(args, outdir):
     import singlecellmultiomics.bamProcessing.bamBinCounts as B
     a, lemma = args['cex'], args['lemma']
     merge = astcut.cut_for(B, 'obtain_counts', 'result.items()', params=('counts', 'result'), result='counts')
+    if lemma == 'L4_two_files_same_contig_name':
+        return _two_files(a, merge)
     if lemma == 'L3_merge_order':
         import importlib
         H = importlib.import_module('harness.C12')
@@ -62,5 +64,37 @@ def replay(args, outdir):
         clause = 'lost' if n == 0 and exp else ('double_counted' if n > 1 else ('counted_but_filtered' if not exp else 'wrong_bin'))
         return dict(reproduced=True, signature='%s:%s' % (lemma, clause),
                     what='%s: contig %d, bin %d, bins_per_job %d, max_fragment_size %d, read %r -> %r expected %r' % (clause, L, b, k, F, {x: a[x] for x in ('rs', 'rl', 'ds_present', 'ds', 'read1', 'qcfail', 'dup', 'mi', 'mapq', 'min_mq', 'dedup')}, total, exp))
+    finally:
+        shutil.rmtree(d, ignore_errors=True)
+
+
+def _two_files(a, merge):
+    import pysam
+    import singlecellmultiomics.bamProcessing.bamBinCounts as B
+    d = tempfile.mkdtemp(prefix='c12b', dir=os.environ.get('VERIF_SCRATCH') or None)
+    try:
+        totals = {}
+        for name, L, rs in (('a', a['LA'], 0), ('b', a['LB'], a['rs'])):
+            path = os.path.join(d, name + '.bam')
+            with pysam.AlignmentFile(path, 'wb', header={'HD': {'VN': '1.6', 'SO': 'coordinate'}, 'SQ': [{'SN': 'chr1', 'LN': L}]}) as o:
+                r = pysam.AlignedSegment(o.header)
+                r.query_name, r.reference_id, r.reference_start = 'q', 0, rs
+                r.query_sequence, r.query_qualities, r.cigarstring = 'A', [30], '1M'
+                r.is_paired, r.is_read1, r.mapping_quality = True, True, 60
+                r.set_tag('SM', 'cellA')
+                o.write(r)
+            pysam.index(path)
+            total = {}
+            for cmd in B.generate_commands(path, bin_size=a['b'], bins_per_job=1, max_fragment_size=2, min_mq=50, key_tags=None, dedup=True, kwargs={}):
+                total = merge(total, B.count_fragments_binned(cmd))
+            totals[name] = total
+        b, rs, LB, LA = a['b'], a['rs'], a['LB'], a['LA']
+        bi = rs // b
+        exp_b = {('chr1', b * bi, min(b * (bi + 1), LB)): {'cellA': 1}}
+        exp_a = {('chr1', 0, min(b, LA)): {'cellA': 1}}
+        if totals['a'] == exp_a and totals['b'] == exp_b:
+            return dict(reproduced=False)
+        return dict(reproduced=True, signature='L4_two_files_same_contig_name:second_file_wrong',
+                    what='counting a.bam (chr1 length %d) then b.bam (chr1 length %d) in one process: b.bam -> %r expected %r' % (LA, LB, totals['b'], exp_b))
     finally:
         shutil.rmtree(d, ignore_errors=True)
